@@ -152,6 +152,20 @@ pub fn adversarial_templates() -> Vec<&'static str> {
         "p(0..X) :- q(X), q(Y/1).",
         "p(X,Y) :- q(X), q(Y+1).",
         "p(X,1..2) :- q(X), q(Y).",
+        // body atoms of arity 2 and 3, comparisons over two variables
+        "r :- s(X,Y).",
+        ":- s(Y,X).",
+        "r :- not s(X,Y).",
+        "r :- not not s(Y,X), q(X).",
+        "r :- s(X,a,Y).",
+        "r :- s(X,a,b).",
+        "r :- s(a,X,b).",
+        "r :- X < Y, q(X), q(Y).",
+        "r :- Y != X.",
+        "{s(X,Y)} :- s(Y,X).",
+        "p(X) :- s(X,Y), not s(Y,X).",
+        "s(X,Y) :- q(X), q(Y), X <= Y.",
+        "s(X+Y,X) :- q(X), q(Y).",
     ]
 }
 
